@@ -50,20 +50,20 @@ type Emitter struct {
 	lines    []string
 	n        int
 	// heap var registry: name -> sort
-	hsort map[string]string
-	tags  map[string]int // concrete type key -> tag id
-	tagTy map[string]types.Type
-	boxed map[string]bool
-	notes []string // abstraction notes
-	noted map[string]bool
-	ifaceImpl map[string]bool
+	hsort             map[string]string
+	tags              map[string]int // concrete type key -> tag id
+	tagTy             map[string]types.Type
+	boxed             map[string]bool
+	notes             []string // abstraction notes
+	noted             map[string]bool
+	ifaceImpl         map[string]bool
 	convAx, convExact []string
-	packed map[string]string
-	boxOrder []string
-	boxSort map[string]string
-	late []string
-	fieldIDs map[string]int
-	g     *Gen
+	packed            map[string]string
+	boxOrder          []string
+	boxSort           map[string]string
+	late              []string
+	fieldIDs          map[string]int
+	g                 *Gen
 }
 
 func newEmitter(g *Gen) *Emitter {
@@ -375,7 +375,7 @@ func (e *Emitter) boxFns(t types.Type) (box, unbox string) {
 }
 
 // boxDecl emits the Box datatype: the disjoint union of every concrete type stored in an interface.
-func (e *Emitter) boxDecl() string {
+func (e *Emitter) boxDecl() (string, string) {
 	var b strings.Builder
 	var cons, tagIte []string
 	var post []string
@@ -399,7 +399,7 @@ func (e *Emitter) boxDecl() string {
 	cons = append(cons, "(box_other (other_tag Int) (other_val Int))")
 	fmt.Fprintf(&b, "(declare-datatypes ((Box 0)) ((%s)))\n", strings.Join(cons, " "))
 	fmt.Fprintf(&b, "(define-fun tagof ((b Box)) Int (ite ((_ is nilbox) b) 0 %s(+ 100001 (ite (>= (other_tag b) 0) (other_tag b) (- (other_tag b))))%s))\n", strings.Join(tagIte, ""), strings.Repeat(")", len(tagIte)))
-	return b.String()
+	return b.String(), strings.Join(post, "\n") + "\n"
 }
 
 // structsAfterBox: struct datatypes are declared after Box (they may contain interface fields);
@@ -423,6 +423,7 @@ func (e *Emitter) implementsTerm(tag string, it types.Type, allowNil bool) strin
 		var ids []string
 		for _, c := range e.g.concreteTypes {
 			if types.Implements(c, iface) {
+				e.boxFns(c) // the Box datatype needs a constructor for every possible dynamic type
 				ids = append(ids, fmt.Sprintf("(= t %d)", e.tagOf(c)))
 			}
 		}
@@ -493,10 +494,13 @@ func (e *Emitter) subRef(st types.Type, i int, base string) string {
 // preamble returns all declarations, including initial heap versions.
 func (e *Emitter) preamble(initHeaps map[string]string, exact bool) string {
 	var b strings.Builder
+	latePost := ""
 	b.WriteString("(set-logic ALL)\n")
 	for _, l := range e.pre {
 		if l == "@BOX@" {
-			b.WriteString(e.boxDecl())
+			bd, post := e.boxDecl()
+			b.WriteString(bd)
+			latePost = post
 			continue
 		}
 		if l == "@CONV@" {
@@ -513,6 +517,9 @@ func (e *Emitter) preamble(initHeaps map[string]string, exact bool) string {
 		b.WriteString(l)
 		b.WriteByte('\n')
 	}
+	// packed box helpers go after every sort declaration; define-funs that use them (impl_*) are
+	// macros over tagof only, so nothing before this point mentions them
+	b.WriteString(latePost)
 	var names []string
 	for n := range initHeaps {
 		names = append(names, n)
